@@ -28,20 +28,20 @@ import (
 )
 
 type Clause struct {
-	Kind   string   // requires ensures nopanic modifies invariant assert ghost pure trusted effects lemma
-	Props  []string // property tags
-	Label  string
-	Expr   string
-	Loop   int
-	When   string // before|after
-	Callee string
-	CallK  int
-	Name   string // ghost name
-	Line   int
-	used   bool
-	TypeInv bool // requires clause that restates a type invariant
+	Kind      string   // requires ensures nopanic modifies invariant assert ghost pure trusted effects lemma
+	Props     []string // property tags
+	Label     string
+	Expr      string
+	Loop      int
+	When      string // before|after
+	Callee    string
+	CallK     int
+	Name      string // ghost name
+	Line      int
+	used      bool
+	TypeInv   bool   // requires clause that restates a type invariant
 	TypeInvOf string // the type whose invariant it restates ("" = any)
-	Assumed bool // "assume ..." clause: used at call sites, never verified (listed as trusted)
+	Assumed   bool   // "assume ..." clause: used at call sites, never verified (listed as trusted)
 }
 
 type FuncContract struct {
@@ -64,7 +64,7 @@ type SweepDirective struct {
 	Prop  string
 	File  string   // source file (base name) whose functions are swept
 	Funcs []string // or explicit function names
-	Reach bool // also everything reachable by calls from the swept set
+	Reach bool     // also everything reachable by calls from the swept set
 }
 
 // TypeInv is a data-structure invariant: assumed for every value of *Type that a
@@ -73,15 +73,15 @@ type SweepDirective struct {
 // it explicitly in their own contracts.  The "only owners write" condition is a
 // frame obligation decided on the SSA (scan.go).
 type TypeInv struct {
-	Prop   string
-	Type   string
-	Fields []string
-	Owners []string
-	Preserving []string
-	Expr   string
-	Line   int
+	Prop        string
+	Type        string
+	Fields      []string
+	Owners      []string
+	Preserving  []string
+	Expr        string
+	Line        int
 	WritersOnly bool // "writers" directive: write funnel only (no modelling consequence)
-	Stable bool // "stable" directive: the fields are written only by constructors, on objects they allocate
+	Stable      bool // "stable" directive: the fields are written only by constructors, on objects they allocate
 }
 
 type GuardDirective struct {
@@ -97,6 +97,11 @@ type EffectDirective struct {
 type PropFile struct{ Prop, File, Re string }
 
 type MapOrderDirective struct{ Prop, File string }
+
+// ErrSourcesDirective: the callees whose error result may become Func's error result (a reviewed list)
+type ErrSourcesDirective struct {
+	Prop, Func, Allowed string
+}
 
 // CycleGuardDirective: implementations of Method that recurse into contained values must consult
 // the traversal memory (Guard, then Mark) before they do; Acyclic lists the implementations that
@@ -141,26 +146,27 @@ type EnsuresAll struct {
 }
 
 type ContractFile struct {
-	MapOrders  []MapOrderDirective
-	OrderState []string // named types that are traversal memory (orderstate directive)
-	NilSweep   map[string]bool // properties whose sweep also asks for nil-result dereferences
+	MapOrders    []MapOrderDirective
+	OrderState   []string        // named types that are traversal memory (orderstate directive)
+	NilSweep     map[string]bool // properties whose sweep also asks for nil-result dereferences
 	GlobalStates []GlobalStateDirective
 	FieldsClosed []FieldsClosedDirective
 	Callers      []CallersDirective
 	CycleGuards  []CycleGuardDirective
-	Resets     []ResetDirective
-	ClauseAll  []ClauseAll
-	EnsuresAll []EnsuresAll
-	PropFiles []PropFile
-	Effects  []EffectDirective
-	Guards   []GuardDirective
-	TypeInvs []*TypeInv
-	Sweeps []SweepDirective
-	Funcs map[string]*FuncContract
-	Order []string
-	Specs map[string]*SpecFn
-	SpecOrder []string
-	Raw   []string
+	ErrSources   []ErrSourcesDirective
+	Resets       []ResetDirective
+	ClauseAll    []ClauseAll
+	EnsuresAll   []EnsuresAll
+	PropFiles    []PropFile
+	Effects      []EffectDirective
+	Guards       []GuardDirective
+	TypeInvs     []*TypeInv
+	Sweeps       []SweepDirective
+	Funcs        map[string]*FuncContract
+	Order        []string
+	Specs        map[string]*SpecFn
+	SpecOrder    []string
+	Raw          []string
 }
 
 var propTagRe = regexp.MustCompile(`^(C[0-9]{2}(?:,C[0-9]{2})*)\s+`)
@@ -245,6 +251,16 @@ func processContractLines(cf *ContractFile, lines []string, lnos []int) error {
 				}
 			}
 			cf.Effects = append(cf.Effects, d)
+			cur = nil
+			continue
+		case strings.HasPrefix(t, "errorsources "):
+			// errorsources Cxx Func | regexp of callee names
+			parts := strings.SplitN(strings.TrimPrefix(t, "errorsources "), "|", 2)
+			hd := strings.Fields(parts[0])
+			if len(parts) != 2 || len(hd) != 2 {
+				return fmt.Errorf("line %d: errorsources Cxx Func | regexp", no)
+			}
+			cf.ErrSources = append(cf.ErrSources, ErrSourcesDirective{Prop: hd[0], Func: hd[1], Allowed: strings.TrimSpace(parts[1])})
 			cur = nil
 			continue
 		case strings.HasPrefix(t, "cycleguard "):
